@@ -489,7 +489,6 @@ func mutantsC14() []Mutant {
 	}
 }
 
-
 // ttlElements: the key -> element map of the TTL map (by name, else its only map-typed field).
 func ttlElements(tm *types.Named) string {
 	if f := fieldByRole(tm, "elements", func(t types.Type) bool { _, ok := t.Underlying().(*types.Map); return ok }, nil); f != "" {
